@@ -260,6 +260,10 @@ inductive SCodeAttr where
   | unknown (nameCp : Nat) (name : JStr) (bytes : Bytes)
   deriving Inhabited
 
+def SCodeAttr.isFrames : SCodeAttr → Bool
+  | .frames _ _ => true
+  | _ => false
+
 structure CodeLayout where
   maxStack : Nat
   maxLocals : Nat
@@ -384,7 +388,7 @@ structure CodeLayout.Legal (p : Pool) (bsms : Option (List Bsm)) (c : CodeLayout
   nAttrs : c.attrs.length < 65536
   attrs : ∀ a ∈ c.attrs, a.Legal p c.insns.length c.pos
   /-- at most one `StackMapTable` -/
-  oneFrames : (c.attrs.filter (fun a => match a with | .frames _ _ => true | _ => false)).length ≤ 1
+  oneFrames : (c.attrs.filter SCodeAttr.isFrames).length ≤ 1
   /-- the reader numbers labels in a `u16`: fewer than 65535 label references (a method with more panics the reader) -/
   refs : c.labelRefs < 65535
 
